@@ -213,6 +213,40 @@ def finish(prop, tier, seed, started, items_count, recs, rejected, attr_table, c
     return 1 if real else 0
 
 
+HIST = re.compile(r'^"HIST\|(.*)"$')
+WALK_KINDS = ["sched", "job", "job", "job", "sched", "job", "job", "job", "sched", "pure"]
+WALK_FOREVER = [i in (4, 7) for i in range(1, 11)]
+
+
+def graph_walks(walks, seed, workdir):
+    """spec -> code: edit histories generated by TLC (-simulate on MC_GraphWalk), with the design
+    properties of the edits checked on every transition of every walk"""
+    rc, out = tlc.run("MC_GraphWalk.tla", "MC_GraphWalk.cfg", workers=1, scratch=workdir, timeout=1800,
+                      extra=["-simulate", "num=%d" % walks, "-depth", "10", "-seed", str(seed + 11)])
+    bad = tlc.violated(out)
+    if bad:
+        raise tlc.TlcFailure("Graph.tla violates its own design property %s on a walk:\n%s" % (bad, out[-3000:]))
+    if "Finished in" not in out or "Error:" in out:
+        raise tlc.TlcFailure("MC_GraphWalk did not complete:\n" + out[-3000:])
+    hists, perprefix, seen = [], {}, set()
+    for line in out.splitlines():
+        m = HIST.match(line)
+        if not m or m.group(1) in seen:
+            continue
+        seen.add(m.group(1))
+        body = json.loads(m.group(1).replace('\\"', '"'))
+        # TLC prints every successor of the last state of a walk: keep a dozen per walk
+        key = json.dumps(body["steps"][:-1], sort_keys=True)
+        perprefix[key] = perprefix.get(key, 0) + 1
+        if perprefix[key] > 12:
+            continue
+        hists.append({"U": {"n": len(WALK_KINDS), "kind": WALK_KINDS, "forever": WALK_FOREVER},
+                      "init": body["init"], "steps": body["steps"], "walk": True})
+    gen, _ = tlc.stats(out)
+    m = re.search(r"(\d+) states checked", out)
+    return hists, int(m.group(1)) if m else gen
+
+
 def graph(prop, tier, seed, workdir):
     import graphfam
     started = time.time()
@@ -228,6 +262,11 @@ def graph(prop, tier, seed, workdir):
         trans += t
         thms += d
     hists, desc = graphfam.histories(prop, tier, seed)
+    walks, wstates = graph_walks(120 if tier == "quick" else 1500, seed, workdir)
+    hists += walks
+    for i, h in enumerate(hists):
+        h["hid"] = i + 1
+    trans += wstates
     recs, rejected, gen, dist = validate_all(hists, workdir, "graphdrv.py", "GraphTrace.tla", "GraphTrace.cfg")
     opkey = {"C15": None, "C16": "sanitize", "C17": None, "C18": ("bypass", "keep_only", "keep_between")}[prop]
     seen = set()
@@ -260,7 +299,10 @@ def graph(prop, tier, seed, workdir):
            "rule": "histories of graph API calls (%s) executed on the real classes, every step and query "
                    "validated by TLC against Graph.tla; distinct = distinct (universe, initial graph, call "
                    "sequence); non-trivial = contains a call / query this property is about" % desc,
-           "design_theorems": thms, "exhaustive": False}
+           "design_theorems": thms, "exhaustive": False,
+           "histories_generated_by_tlc": {"histories": len(walks), "states_checked_on_walks": wstates,
+                                          "properties_checked_on_every_transition":
+                                          ["Inv_Tree", "Inv_Scan", "P_Sanitize", "P_Bypass", "P_Keep", "P_Readonly"]}}
     return finish(prop, tier, seed, started, len(hists), recs, rejected, GRAPH_ATTR, cov, nontriv, samples)
 
 
